@@ -400,3 +400,17 @@ Qed.
 Lemma weekday_unique_in_window a t1 t2 :
   a <= t1 <= a + 6 -> a <= t2 <= a + 6 -> weekday_of_ord t1 = weekday_of_ord t2 -> t1 = t2.
 Proof. unfold weekday_of_ord. lia. Qed.
+
+(* ---------------------------------------------------------------- finding F-C03-zero-absolute *)
+Theorem zero_absolute_refuted :
+  exists d1 d2 d3 o,
+    a_year (ab d1) = Some 0 /\ a_month (ab d2) = Some 0 /\ a_day (ab d3) = Some 0 /\
+    add_dt d1 o = Ok o /\ add_dt d2 o = Ok o /\ add_dt d3 o = Ok o /\
+    spec_add d1 o = None /\ spec_add d2 o <> Some o /\ spec_add d3 o = None.
+Proof.
+  exists (mkrd rel0 0 (mkabs (Some 0) None None None None None None) None),
+         (mkrd rel0 0 (mkabs None (Some 0) None None None None None) None),
+         (mkrd rel0 0 (mkabs None None (Some 0) None None None None) None),
+         (PD 2000 1 31).
+  vm_compute. repeat split; try reflexivity. discriminate.
+Qed.
